@@ -39,7 +39,7 @@ def stack_discipline(ctx):
         problems.append('last_depth must be recorded exactly once per call')
     else:
         depth = ws[0].value
-        if not (depth[0] == 'field' and depth[2] == '0' and is_call(depth[1], 'DfsNodeData::extract')):
+        if not (prune.dfs_component(depth) and prune.dfs_component(depth)[1] == 'depth'):
             problems.append('last_depth is not set to the depth of the node just delivered')
     if len(pops) != 1 or len(pushes) != 1:
         problems.append('expected one pop site and one push site on the predicate stack')
@@ -97,6 +97,9 @@ def sign_table(b, R, mul_bb):
     label_expr = None
     for val, lits, dbb in phi_table(b, R, l):
         eqs = [x for x in lits if x[0] == 'eq']
+        if not eqs:
+            # `if label == 1 { .. } else if label == 0 { .. }` instead of a match on the label
+            eqs = [('eq', x_, y_[1]) for op_, x_, y_ in prune.cmp_facts(lits) if op_ == 'Eq' and y_[0] == 'const' and isinstance(y_[1], int)]
         if val[0] != 'const' or not eqs:
             return None
         table[eqs[0][2]] = val[1]
@@ -233,7 +236,7 @@ def run(ctx):
             # node = extract(iter.next(tree)).1 and the same data is returned
             data = [x for x in walk(node) if is_call(x, 'DfsPre::next', 'TraversalMut::next')]
             if data and any(any(s(x) == s(data[0]) for x in walk(e)) for e in rets):
-                ok = node[0] == 'field' and node[2] == '1' and is_call(node[1], 'DfsNodeData::extract')
+                ok = bool(prune.dfs_component(node)) and prune.dfs_component(node)[1] == 'index'
         (ctx.ok if ok else ctx.bad)('C09.R2', 'PolyhedraGen::next#reported-node',
                                     'the predicate pushed belongs to the parent edge of the node that is reported' if ok else 'the node whose parent edge is pushed is not the node reported', b.span)
     stack_discipline(ctx)
